@@ -340,6 +340,7 @@ class WSStream:
                 await self.send(StreamClosed(stream_id=self.stream_id))
 
     async def _send_error_response(self, status_code: int) -> None:
+        self.state = ASGIWebsocketState.HTTPCLOSED  # The handshake is over, and logged below
         await self.send(
             Response(
                 stream_id=self.stream_id,
